@@ -303,17 +303,22 @@ func (r Int32) SmoothMax(x ConstVector, alpha ConstFloat64, t [2]Scalar) Scalar 
   return r
 }
 func (r Int32) LogSmoothMax(x ConstVector, alpha ConstFloat64, t [3]Scalar) Scalar {
-  r .SetFloat64(math.Inf(-1))
+  // sum_i x_i exp(alpha x_i - L) with L = log sum_j exp(alpha x_j): only the
+  // normaliser is accumulated on log scale, so that no logarithm of the entries
+  // is needed (entries equal to zero keep their value and derivatives)
+  r .SetFloat64(0.0)
   t[2].SetFloat64(math.Inf(-1))
   for i := 0; i < x.Dim(); i++ {
     t[0].Mul(x.ConstAt(i), alpha)
     t[2].LogAdd(t[2], t[0], t[1])
-    t[1].Log(x.ConstAt(i))
-    t[0].Add(t[0], t[1])
-    r.LogAdd(r, t[0], t[1])
   }
-  r.Sub(r, t[2])
-  r.Exp(r)
+  for i := 0; i < x.Dim(); i++ {
+    t[0].Mul(x.ConstAt(i), alpha)
+    t[0].Sub(t[0], t[2])
+    t[0].Exp(t[0])
+    t[0].Mul(t[0], x.ConstAt(i))
+    r.Add(r, t[0])
+  }
   return r
 }
 func (r Int32) Vmean(a ConstVector) Scalar {
